@@ -37,7 +37,7 @@ def plan(tier, prop):
                 "operations, then a healed write+read-back; non-trivial = at "
                 "least one operation completed; distinct = distinct abstract "
                 "event traces (op kinds, command kinds, fault kinds, outcomes)",
-        "expected_probes": ["multi_chunk", "unaligned", "zero_length",
+        "expected_probes": ["multi_chunk", "unaligned", "zero_length", "top_of_address_space",
                             "op_timeout", "struct_field", "vcpu_field",
                             "link_op", "fill_aligned", "fill_unaligned",
                             "windowed", "direct_scp", "tcm_core_space"],
@@ -107,6 +107,14 @@ class MemEngine(object):
         if aligned:
             addr &= ~3
             n &= ~3
+        if t.draw(12) == 0:
+            # up to the very last byte of the address space (never beyond)
+            gap = [0, 0, 0, 1, 4, B][t.draw(6)]
+            if aligned:
+                gap &= ~3
+            addr = min(0x100000000 - n - gap,
+                       0xfffffffc if aligned else 0xffffffff)
+            self.w.probe("top_of_address_space")
         return addr, n
 
     def pick_chip(self):
